@@ -672,6 +672,12 @@ def run(ctx):
         % (n_hist, n_calls, t1 - t0 if batches == 1 else 0.0, tg, th, tc))
     violations, known = [], []
     kf = [k for k in known_findings() if k["kind"] == "known" and k["property"] == ID]
+    # the detector in its place: the real accrualFailureDetector wired into the real cluster state behind a virtual clock -
+    # a silent peer becomes and STAYS unreachable until it is heard from, a steady one never does (monitor only here;
+    # the same histories go through the world model in C11)
+    from props import gossip_common as gc
+    fv, fcov = gc.fd_probe(ID, binary, wd, rng, ctx["tier"] == "quick", corr=False)
+    violations += fv
 
     # ---- monitor failures: shrink, report with the failing input
     seen = set()
@@ -744,6 +750,7 @@ def run(ctx):
            "correspondence": {"harness": "harness/fd TestVerifHarness_FD (real accrualFailureDetector: ReportWithTimestamp / SuspicionLevelAt / Remove), compared inside Coq by Run/Run_FD.v mismatches (vm_compute)",
                               "histories": n_corr, "ops": n_calls, "distribution": dist, "disagreements": len(dis), "seed": ctx["seed"],
                               "compared": "after every call: present, sum, size, lastTimestamp exactly; every level: float64 (exact mantissa*2^exp) vs model rational, relative tolerance 1e-9; decision level>20 unless exact level within 2e-9 of 20; panic vs value"},
+           "real_detector_in_cluster_state": fcov,
            "monitor": {"histories": n_hist, "failures": len(mon_fail),
                        "predicate": "mean of the last min(len,n) samples of bootstrap::differences recomputed from the raw arrival list (fractions); level == silence/mean within 1e-9; 0 at an arrival; accuracy and completeness at threshold 20; equal levels for histories sharing the last n+1 arrivals"}}
     return {"coverage": cov, "violations": violations, "known": known}
@@ -753,6 +760,9 @@ def replay(path, wd):
     obj = json.load(open(path))
     case = obj["case"]
     binary = build_harness("pkg/gossip")
+    from props import gossip_common as gc
+    if gc.replay_glue(obj, binary, wd):
+        return 0
     cases = [case] + ([obj["other"]] if obj.get("other") else [])
     if obj.get("other"):
         case["pair"] = "replay"
